@@ -77,7 +77,7 @@ def gamma1(tier, seed):
         for m in V_MNEM:
             for k in range(kmax + 1):
                 for ops in itertools.product(ops_vocab, repeat=k):
-                    if tier == "thorough" and k == 3 and rnd.random() > 0.25:
+                    if tier == "thorough" and k == 3 and rnd.random() > 0.5:
                         continue
                     pat = [item(m, ops)]
                     t = {"id": f"g1/{ftag(mf,of)}/{m}({','.join(ops)})", "doc": doc_of(pat, mf, of), "feature": "item"}
@@ -85,10 +85,10 @@ def gamma1(tier, seed):
                     if n % 10 == 0:
                         with_twin(t, pat)
                     out.append(t)
-    nseq = 120 if tier == "quick" else 1500
+    nseq = 120 if tier == "quick" else 4000
     for i in range(nseq):
         mf, of = rnd.choice(FLAGS)
-        length = rnd.choice([2, 2, 3])
+        length = rnd.choice([2, 2, 3]) if tier == "quick" else rnd.choice([2, 3, 3, 4])
         pat = []
         for _ in range(length):
             k = rnd.choice([0, 1, 1, 2, 3])
@@ -114,8 +114,8 @@ def gamma1(tier, seed):
 
 # ------------------------------------------------------------------------------- C02
 def times_values(tier):
-    ints = [0, 1, 2, 3, 4] if tier == "thorough" else [0, 1, 2, 3]
-    hi = 3 if tier == "thorough" else 2
+    ints = [0, 1, 2, 3, 4, 5, 6] if tier == "thorough" else [0, 1, 2, 3]
+    hi = 4 if tier == "thorough" else 2
     ranges = [(a, b) for a in range(0, hi + 1) for b in range(a, hi + 1)]
     if tier == "thorough":
         ranges += [(0, 5), (2, 6), (1, 7)]
@@ -228,7 +228,7 @@ def gamma3(tier, seed):
                 kids = ["e", inner] if pos else [inner, "e"]
                 pat = ["a", {op1: kids}, "d"]
                 out.append({"id": f"g3/ins2/{op1}/{op2}/{pos}", "doc": doc_of(pat), "feature": "ins_nested"})
-    n = 40 if tier == "quick" else 600
+    n = 40 if tier == "quick" else 1500
     depth = 2 if tier == "quick" else 3
     for i in range(n):
         node = _nest(depth, leaves, rnd.choice([2, 2, 3]), rnd)
